@@ -68,6 +68,30 @@ def build(tier, seed):
                   bounds="slice " + sl + ": presence bits, symbolic stub codes, unknown keys, wrong node/root kinds, list truncation; 6 modes")
 
         mods.append(mm)
+    mx = Module("c04_extra").pre('''
+import re
+from adaptix import Retort
+RS = six_retorts()
+SET_LD = {k: (r.get_loader(Set[Any]), r.get_loader(FrozenSet[object])) for k, r in RS.items()}
+ELS = (1, [1], {}, (1,), None, "a")
+def set_any(k0, k1):
+    data = [ELS[pick(k0, 6)], ELS[pick(k1, 6)]]
+    for k, (l1, l2) in SET_LD.items():
+        for l in (l1, l2):
+            o = outcome(l, list(data))
+            if o[0] == "other_exc": return False
+    return True
+PATTERNS = ("a{4294967296}", "(", "a{2,1}", "[", "(?P<x>a)(?P<x>b)", "a" * 3 + "{65536}{65536}", chr(92), "(?z)", "*", "a**")
+PAT_LD = {k: r.get_loader(re.Pattern) for k, r in RS.items()}
+def pattern_pool(i):
+    p = PATTERNS[pick(i, len(PATTERNS))]
+    return all(outcome(l, p)[0] != "other_exc" for l in PAT_LD.values())
+''')
+    mx.ob("set_any_unhashable", "k0: int, k1: int", "return set_any(k0, k1)", pre=["0 <= k0 < 6", "0 <= k1 < 6"], timeout=60,
+          family="Set[Any] / FrozenSet[object] with hashable and unhashable elements", bounds="2 elements from (int, list, dict, tuple, None, str); 6 modes")
+    mx.ob("pattern_pool", "i: int", "return pattern_pool(i)", pre=["0 <= i < 10"], timeout=60, family="re.Pattern loader on malformed / over-limit patterns",
+          bounds="10 patterns incl. a repeat count beyond the engine limit")
+    mods.append(mx)
     return Plan("C04", mods,
                 assumptions=["CrossHair models of builtins (floats as reals: numeric boundary regions are owned by the E2 kernels)"],
                 bounds={}, outside=["strings longer than the bound"])
